@@ -41,6 +41,8 @@ type loopInfo struct {
 	phiVals  map[*ssa.Phi]Val
 	variant0 string
 	cands    []*autoInv
+	iterHead string // loopiter: number of completed iterations at the loop head (ghost)
+	iterCur  string
 }
 
 type Frame struct {
@@ -363,12 +365,17 @@ func (fr *Frame) execBlock(b *ssa.BasicBlock, st0 *State) {
 			fr.vals[phi] = entryVals[phi]
 		}
 		li.preSt = fr.st.clone()
+		li.iterCur = bvLitI(64, 0)
 		fr.checkInvariants(li, "inv-init", fr.pc, fr.st)
 		li.cands = fr.autoCandidates(li, phis)
 		for _, c := range li.cands {
 			e.oblige("auto-inv-init", c.id, fr.pc, c.term(fr, fr.vals[c.phi]), e.posOf(li.head.Instrs[0].Pos()), "inferred loop invariant "+c.desc)
 		}
 		fr.havocLoop(li, phis)
+		// loopiter: the ghost count of completed iterations (physical: below 2^40)
+		li.iterHead = e.fresh("loopiter", sBV64)
+		e.assume(mkAnd(app("bvsle", bvLitI(64, 0), li.iterHead), app("bvslt", li.iterHead, bvLitI(64, 1<<40))))
+		li.iterCur = li.iterHead
 		for _, c := range li.cands {
 			e.assume(mkImp(fr.pc, c.term(fr, fr.vals[c.phi])))
 		}
@@ -630,6 +637,9 @@ func (fr *Frame) loopEnv(li *loopInfo, st *State, phiOverride map[*ssa.Phi]Val) 
 			env.vars[phi.Comment] = v
 		}
 	}
+	if li.iterCur != "" {
+		env.vars["loopiter"] = Val{T: tInt, S: li.iterCur}
+	}
 	return env
 }
 
@@ -704,7 +714,11 @@ func (fr *Frame) backEdge(from, head *ssa.BasicBlock, c string) {
 		saved[phi] = fr.vals[phi]
 		fr.vals[phi] = v
 	}
+	if li.iterHead != "" {
+		li.iterCur = bvAdd(li.iterHead, bvLitI(64, 1))
+	}
 	fr.checkInvariants(li, "inv-preserve", c, fr.st)
+	li.iterCur = li.iterHead
 	if li.spec.Decreases != nil && li.variant0 != "" {
 		env := fr.loopEnv(li, fr.st, nil)
 		v, err := env.eval(li.spec.Decreases.E)
